@@ -212,23 +212,25 @@ class DateYYYYMMDD(Compound, Date):
     @classmethod
     def __compound_init__(cls):
         assert len(cls.field_schema) < 4
-        # fields generated for a parent class are regenerated, so that a
-        # derived class gets the same members whether or not its parent
-        # has been prepared already
-        fields = [
-            field
-            for field in cls.field_schema
-            if not field.__dict__.get("_compound_generated")
-        ]
+        fields = list(cls.field_schema)
+        # a list that was built by the preparation of an ancestor is rebuilt
+        # from the members that ancestor started from, so that a derived
+        # class gets the same members whether or not its parent has been
+        # prepared already.  A list supplied by the user is taken as it is.
+        for klass in cls.__mro__:
+            if "field_schema" in klass.__dict__:
+                built = klass.__dict__.get("_compound_built")
+                if built is not None and built[0] is klass.__dict__["field_schema"]:
+                    fields = list(built[1])
+                break
         if len(fields) == 3:
             return
 
+        supplied = tuple(fields)
         optional = cls.optional
 
         def generated(name, format):
-            field = Integer.named(name).using(format=format, optional=optional)
-            field._compound_generated = True
-            return field
+            return Integer.named(name).using(format=format, optional=optional)
 
         if len(fields) == 0:
             fields.append(generated("year", "%04i"))
@@ -238,6 +240,7 @@ class DateYYYYMMDD(Compound, Date):
             fields.append(generated("day", "%02i"))
 
         cls.field_schema = fields
+        cls._compound_built = (fields, supplied)
 
     def compose(self):
         try:
